@@ -1,6 +1,6 @@
 (* Property C05 — expired entries are reclaimed, and only expired ones.
-   Only statements here; proofs are in StoreProofs.v and CacheLocal.v. *)
-From StrettoModel Require Import Base Metrics Policy Ttl Store StoreProofs Cache CacheProofs CacheLocal.
+   Only statements here; proofs are in StoreProofs.v, CacheLocal.v and CacheExpiry.v. *)
+From StrettoModel Require Import Base Metrics Sketch Bloom TinyLFU Policy Ttl Store StoreProofs Cache CacheProofs CacheLocal CacheInv CacheAgree CacheExpiry.
 Open Scope N_scope.
 
 (* An entry is filed under the second after its deadline's second: strictly after the deadline,
@@ -62,3 +62,65 @@ Example C05_nonvacuous :
   | _ => ([], [])
   end = ([1700000005], [(1, 0); (2, 0); (3, 0)]).
 Proof. vm_compute. reflexivity. Qed.
+
+(* ---- the listing invariant (proofs in CacheExpiry.v) ---- *)
+
+(* Every resident entry with a TTL is listed in the expiry index under the bucket of its CURRENT
+   deadline — whatever inserts, TTL updates (TTL -> longer/shorter TTL, TTL <-> none) and removes hit
+   it or its bucket neighbours — or it is among the keys the running cleanup has taken out of a due
+   bucket and not yet visited, and it has expired.  Inductive over every step of every actor. *)
+Theorem C05_listing_invariant_is_inductive :
+  forall c st l st' o, EmInv st -> pc_cf0 (s_pc st) -> cstep c st l = StepOk st' o -> EmInv st'.
+Proof. exact EmInv_step. Qed.
+Print Assumptions C05_listing_invariant_is_inductive.
+
+(* No resident TTL entry is ever forgotten: in every reachable state of a collision-free run in which
+   the processor is not inside a cleanup, it is listed under its bucket, so the cleanup of that
+   second will visit it. *)
+Theorem C05_resident_ttl_entry_is_listed :
+  forall c mc t now st k e,
+  reach_cf c (cinit c mc t now) st ->
+  (forall k0 cf rest acc, s_pc st <> PTickKey k0 cf rest acc) ->
+  (forall k0 cf cost rest acc, s_pc st <> PTickAfterPolicy k0 cf cost rest acc) ->
+  aget k (st_map (s_store st)) = Some e -> t_is_zero (e_exp e) = false ->
+  listed (st_em (s_store st)) (storage_bucket (e_exp e)) k.
+Proof. exact resident_ttl_entry_is_listed. Qed.
+Print Assumptions C05_resident_ttl_entry_is_listed.
+
+(* The cleanup step takes every due bucket: what it leaves is later than its own second ... *)
+Theorem C05_cleanup_leaves_no_due_bucket :
+  forall c st h st' o,
+  s_pc st = PIdle -> h_arm h = Some ArmTick -> proc_step c st h = StepOk st' o -> MB st' (s_now st).
+Proof. exact tick_establishes_MB. Qed.
+Print Assumptions C05_cleanup_leaves_no_due_bucket.
+
+(* ... and stays so: every later listing (an insert or TTL update made at or after T) is for a later
+   second — except an item written before T, already due at T, that the processor admits only now. *)
+Theorem C05_listings_stay_later_than_the_last_cleanup :
+  forall c st l st' o T,
+  T <= s_now st -> MB st T -> no_stale_admission st T -> cstep c st l = StepOk st' o -> MB st' T.
+Proof. exact MB_step. Qed.
+Print Assumptions C05_listings_stay_later_than_the_last_cleanup.
+
+(* Reclamation: once a cleanup that ran at T is over, no resident entry has a deadline bucket that
+   was due at T; in particular an entry whose TTL had elapsed one bucket width (one second) before T
+   has been reclaimed. *)
+Theorem C05_after_cleanup_nothing_due_is_resident :
+  forall st T k e,
+  EmInv st -> MB st T ->
+  (forall k0 cf rest acc, s_pc st <> PTickKey k0 cf rest acc) ->
+  (forall k0 cf cost rest acc, s_pc st <> PTickAfterPolicy k0 cf cost rest acc) ->
+  aget k (st_map (s_store st)) = Some e -> t_is_zero (e_exp e) = false ->
+  cleanup_bucket T < storage_bucket (e_exp e).
+Proof. exact after_cleanup_nothing_due_is_resident. Qed.
+Print Assumptions C05_after_cleanup_nothing_due_is_resident.
+
+Theorem C05_elapsed_entry_is_reclaimed :
+  forall st T k e,
+  EmInv st -> MB st T ->
+  (forall k0 cf rest acc, s_pc st <> PTickKey k0 cf rest acc) ->
+  (forall k0 cf cost rest acc, s_pc st <> PTickAfterPolicy k0 cf cost rest acc) ->
+  aget k (st_map (s_store st)) = Some e -> t_is_zero (e_exp e) = false ->
+  t_created (e_exp e) + t_d (e_exp e) + NS <= T -> False.
+Proof. exact elapsed_entry_is_reclaimed. Qed.
+Print Assumptions C05_elapsed_entry_is_reclaimed.
